@@ -223,6 +223,68 @@ def recipe_case(items):
     return (n, raised, viols[:20], len(viols))
 
 
+def shared_case(item):
+    """one node object handed to two places: children passed to a constructor are copied, so the
+    two resulting nodes are independent and the template is untouched"""
+    bt = rt.bt()
+    kind, where = item
+    data = T.frame(T.TABLES["exact"], 4, ["a", "b", "c"])
+    if kind == "eager_sec":
+        tpl = bt.Security("a")
+    elif kind == "lazy_sec":
+        tpl = bt.Security("a", lazy_add=True)
+    else:
+        tpl = bt.Strategy("x", [], ["a"])
+    viols = []
+    if where == "siblings":
+        s1 = bt.Strategy("s1", [], [tpl, "b"])
+        s2 = bt.Strategy("s2", [], [tpl])
+        roots = [bt.Strategy("r", [], [s1, s2])]
+        holders = [roots[0]["s1"], roots[0]["s2"]]
+    elif where == "dict_siblings":
+        s1 = bt.Strategy("s1", [], {"a" if kind != "strat" else "x": tpl})
+        s2 = bt.Strategy("s2", [], {"a" if kind != "strat" else "x": tpl})
+        roots = [bt.Strategy("r", [], {"s1": s1, "s2": s2})]
+        holders = [roots[0]["s1"], roots[0]["s2"]]
+    else:
+        roots = [bt.Strategy("r1", [], [tpl]), bt.Strategy("r2", [], [tpl, "b"])]
+        holders = roots
+    for r in roots:
+        r.use_integer_positions(False)
+        r.setup(data)
+        r.adjust(64.0)
+        r.update(data.index[0])
+    q = [3.0, 5.0]
+    name = "a" if kind != "strat" else "x"
+    for h, qty in zip(holders, q):
+        if kind == "strat":
+            h[name].transact(qty, "a") if False else h.allocate(16.0, child=name)
+            h[name].transact(qty, "a")
+        else:
+            h.transact(qty, name)
+    for r in roots:
+        r.update(data.index[0])
+    nodes = [h[name] for h in holders]
+    if nodes[0] is nodes[1]:
+        viols.append({"rule": "shared_node_not_copied", "expected": "two independent nodes", "observed": "the same object in both places"})
+    for h, nd, qty in zip(holders, nodes, q):
+        if nd.parent is not h:
+            viols.append({"rule": "structure_parent", "expected": h.full_name, "observed": repr(nd.parent)})
+        leaf = nd if kind != "strat" else nd["a"]
+        if abs(float(leaf.position) - qty) > 1e-12:
+            viols.append({"rule": "shared_node_positions_mix", "expected": {"holder": h.full_name, "position": qty}, "observed": float(leaf.position)})
+    for r in roots:
+        mem = r.members
+        if len(set(id(x) for x in mem)) != len(mem):
+            viols.append({"rule": "structure_members", "expected": "every node once", "observed": [x.full_name for x in mem]})
+        for x in mem:
+            if x.root is not r:
+                viols.append({"rule": "structure_root", "expected": r.name, "observed": repr(x.root)})
+    if tpl.parent is not tpl or (kind != "strat" and float(tpl.position) != 0.0):
+        viols.append({"rule": "template_node_mutated", "expected": "untouched template", "observed": {"parent": repr(tpl.parent)}})
+    return (1, viols[:4], len(viols))
+
+
 def find(recipe, path):
     r = recipe
     for p in path:
@@ -359,6 +421,8 @@ def replay(case):
     k = case["kind"]
     if k == "recipe":
         return recipe_case([case["where"]])[2]
+    if k == "shared":
+        return shared_case(tuple(case["where"]))[1]
     if k == "variants":
         return variants_case(case["spec"])[1]
     return nested_case(case["spec"])[1]
@@ -392,6 +456,12 @@ def run(ctx):
             ctx.nontrivial_count += n - raised
             for v in viols:
                 ctx.violation(dict(v, build=kind, module=MOD, case={"kind": "recipe", "where": v["where"]}))
+        shared = [(k, w) for k in ("eager_sec", "lazy_sec", "strat") for w in ("siblings", "dict_siblings", "two_trees")]
+        for item, (n, viols, nv) in ctx.run(kind, MOD, "shared_case", shared, chunksize=1):
+            ctx.add(states=1, transitions=1, traces_validated_against_impl=1, evaluations=1)
+            ctx.nontrivial_count += 1
+            for v in viols:
+                ctx.violation(dict(v, build=kind, module=MOD, case={"kind": "shared", "where": list(item)}))
         for spec, (status, viols, ntr) in ctx.run(kind, MOD, "variants_case", vspecs, chunksize=2):
             ctx.add(states=1, transitions=3, traces_validated_against_impl=3, evaluations=1)
             if status == "ok" and ntr:
